@@ -96,6 +96,7 @@ def other_state(vk, item, fresh, cls, rg, dim, fc, r, K, prepare=None):
 
 SOLID = [dict(field=f, hyper=h) for f in ("3d", "2d", "planestrain", "axisymmetric") for h in (True, False)]
 SOLID += [dict(field=f, hyper=True, state=True) for f in ("3d", "planestrain")]  # material with stored state variables
+SOLID += [dict(field="planestrain", hyper=h, options=o) for h in (True, False) for o in ("apply", "apply+noblock")]  # constructor options
 
 
 @contract("C01", "solidbody", configs=SOLID)
@@ -137,6 +138,34 @@ def solidbody(vk, cfg):
         vk.ensures_eq("state/matrix(cached)==matrix(field)", K2, K)
         return
     umat = StubMaterial(vk, dim=2 if kind == "2d" else 3, hyperelastic=cfg["hyper"])
+    if cfg.get("options"):
+        # the constructor options `apply=` (a callable applied to the assembled vector AND matrix: thickness / symmetry
+        # factor) and `block=`: what Newton sums is assemble.vector() / assemble.matrix() WITHOUT per-call options, so the
+        # matrix must be the derivative of the vector under the options of the constructor
+        t = vk.reals("t", (), near=0.25, spread=0.1)
+        noblock = "noblock" in cfg["options"]
+        scale = (lambda A: [t * a for a in A]) if noblock else (lambda A: t * A)
+        body = fem.SolidBody(umat, fc, apply=scale, block=not noblock)
+        plain = fem.SolidBody(umat, fc)
+        if vk.sym:
+            with coo.bound():
+                r = coo.todense(body.assemble.vector(fc)[0] if noblock else body.assemble.vector(fc))
+                K = coo.todense(body.assemble.matrix(fc)[0] if noblock else body.assemble.matrix(fc))
+        else:
+            r = coo.todense(body.assemble.vector(fc)[0] if noblock else body.assemble.vector(fc))
+            K = coo.todense(body.assemble.matrix(fc)[0] if noblock else body.assemble.matrix(fc))
+        r, K = np.asarray(r).reshape(-1), np.asarray(K)
+        tangent_obligations(vk, r, K, unknowns(fc), symmetric=cfg["hyper"], label="options/")
+        r0, K0 = assemble_pair(vk, plain, fc)
+        vk.ensures_eq("options/vector==apply(vector of the body without options)", r, t * r0)
+        vk.ensures_eq("options/matrix==apply(matrix of the body without options)", K, t * K0)
+        # a per-call option takes precedence over the constructor's
+        r1, K1 = assemble_pair(vk, body, fc, apply=(lambda A: A), block=True)
+        vk.ensures_eq("options/per-call apply, block take precedence: vector", r1, r0)
+        vk.ensures_eq("options/per-call apply, block take precedence: matrix", K1, K0)
+        if vk.sym:
+            vk.canary("options/matrix ignores apply", K, K0)
+        return
     body = fem.SolidBody(umat, fc)
     r, K = assemble_pair(vk, body, fc)
     tangent_obligations(vk, r, K, unknowns(fc), symmetric=cfg["hyper"])
